@@ -31,14 +31,14 @@ for path in sorted(glob.glob(os.path.join(HERE, "mutants", "C??.json"))):
     rpath = path.replace(".json", ".result.json")
     results = {r["name"]: r for r in json.load(open(rpath))} if os.path.exists(rpath) else {}
     killed = [m for m in muts if results.get(m["name"], {}).get("status") == "killed"]
-    equiv = [m for m in muts if m.get("expect") == "equivalent"]
+    equiv = [m for m in muts if m.get("expect") in ("equivalent", "not-claimed")]
     other = [m for m in muts if m not in killed and m not in equiv]
     out.append("| %s | %d | %d | %d | %s |" % (pid, len(muts), len(killed), len(equiv),
                "; ".join("%s: %s" % (m["name"], results.get(m["name"], {}).get("status", "not run")) for m in other) or "-"))
     for m in muts:
         r = results.get(m["name"], {})
         details.append("| %s | %s | %s | %s |" % (pid, m["name"].replace("|", "/"),
-                       r.get("status", "not run") if m.get("expect") != "equivalent" else "equivalent: " + m.get("why", ""),
+                       r.get("status", "not run") if m.get("expect") not in ("equivalent", "not-claimed") else m.get("expect") + ": " + m.get("why", ""),
                        ", ".join("`%s`" % s.split(" ")[0] for s in r.get("signatures", [])[:2])))
 out.append("")
 out.append("| property | mutant | result | caught by |")
